@@ -1,1 +1,45 @@
+//! `luasyn`: an independent, hand-written lexer + recursive-descent parser for Lua 5.1 and Luau.
+//!
+//! Shares no code with darklua or full_moon.  Entry points:
+//!
+//! * [`lex`] — token stream + comment list,
+//! * [`parse`] / [`parse_expr`] — reference AST (`ast.rs`) plus token list and type-syntax spans,
+//! * [`decode_string`] / [`decode_number`] / [`decode_interp_segment`] — literal decoder,
+//! * [`census`] — Luau feature census,
+//! * [`resolve`] — binding resolver.
+
 pub mod ast;
+pub mod census;
+pub mod lex;
+pub mod literal;
+pub mod parse;
+pub mod resolve;
+
+#[derive(Clone, Copy, Debug, PartialEq, Eq)]
+pub enum Mode {
+    Luau,
+    Lua51,
+}
+
+#[derive(Clone, Debug)]
+pub struct SynError {
+    pub msg: String,
+    /// byte offset
+    pub pos: usize,
+    /// 1-based line (1 + number of `\n` bytes before `pos`)
+    pub line: u32,
+}
+
+impl std::fmt::Display for SynError {
+    fn fmt(&self, f: &mut std::fmt::Formatter<'_>) -> std::fmt::Result {
+        write!(f, "line {} (byte {}): {}", self.line, self.pos, self.msg)
+    }
+}
+
+impl std::error::Error for SynError {}
+
+pub use census::{census, Census};
+pub use lex::{lex, Comment, LexOutput, TokKind, Token};
+pub use literal::{decode_interp_segment, decode_number, decode_string, uses_luau_only_escape};
+pub use parse::{parse, parse_expr, parse_with_options, ParseOptions, ParseOutput};
+pub use resolve::{resolve, Occurrence, Resolution, Role};
